@@ -42,6 +42,7 @@ pub(crate) mod rig {
     use std::sync::{Arc, Mutex, RwLock};
     use std::time::Duration;
 
+    use crate::ClockId;
     use crate::algorithm::{Measurement, ObservableSourceTimedata, SourceController};
     use crate::config::SourceConfig;
     use crate::cookiestash::CookieStash;
@@ -51,7 +52,6 @@ pub(crate) mod rig {
     use crate::source::{NtpSource, NtpSourceAction, ProtocolVersion, SourceNtsData};
     use crate::system::NtpSourceInfo;
     use crate::time_types::{NtpDuration, NtpTimestamp, PollInterval, PollIntervalLimits};
-    use crate::ClockId;
 
     pub(crate) use probe::View;
 
@@ -100,11 +100,21 @@ pub(crate) mod rig {
                 "auto" => Ver::Auto,
                 _ => return None,
             };
-            let lim: Vec<i8> = it.next()?.split('.').filter_map(|x| x.parse().ok()).collect();
+            let lim: Vec<i8> = it
+                .next()?
+                .split('.')
+                .filter_map(|x| x.parse().ok())
+                .collect();
             if lim.len() != 3 {
                 return None;
             }
-            Some(Cfg { nts, ver, min: lim[0], init: lim[1], max: lim[2] })
+            Some(Cfg {
+                nts,
+                ver,
+                min: lim[0],
+                init: lim[1],
+                max: lim[2],
+            })
         }
         pub fn source_config(&self) -> SourceConfig {
             SourceConfig {
@@ -295,7 +305,8 @@ pub(crate) mod rig {
         cookie_ctr: &mut u64,
     ) -> Vec<u8> {
         let v5 = req.ver == 5;
-        let server_ns = (client_send_ns as i128 + w.delay_ns as i128 + w.offset_ns as i128).max(0) as u128;
+        let server_ns =
+            (client_send_ns as i128 + w.delay_ns as i128 + w.offset_ns as i128).max(0) as u128;
         let rx = ts_bytes(server_ns);
         let tx = ts_bytes(server_ns + 1_000);
         let mut out = Vec::with_capacity(256);
@@ -353,7 +364,9 @@ pub(crate) mod rig {
             }
             let mut buf = vec![0u8; plain.len() + 64];
             buf[..plain.len()].copy_from_slice(&plain);
-            let r = cipher.encrypt(&mut buf, plain.len(), &out).expect("encrypt");
+            let r = cipher
+                .encrypt(&mut buf, plain.len(), &out)
+                .expect("encrypt");
             let mut body = Vec::with_capacity(4 + r.nonce_length + r.ciphertext_length);
             body.extend_from_slice(&(r.nonce_length as u16).to_be_bytes());
             body.extend_from_slice(&(r.ciphertext_length as u16).to_be_bytes());
@@ -369,7 +382,12 @@ pub(crate) mod rig {
 
     #[derive(Clone, Debug, PartialEq)]
     pub(crate) enum TimerOut {
-        Sent { poll: i8, ver: u8, timer: Duration, len: usize },
+        Sent {
+            poll: i8,
+            ver: u8,
+            timer: Duration,
+            len: usize,
+        },
         Reset,
         Demobilize,
         Odd(String),
@@ -525,7 +543,12 @@ pub(crate) mod rig {
                     let Some(req) = parse_request(&b) else {
                         return TimerOut::Odd(format!("unparsable request of {} bytes", b.len()));
                     };
-                    let out = TimerOut::Sent { poll: req.poll, ver: req.ver, timer: t, len: b.len() };
+                    let out = TimerOut::Sent {
+                        poll: req.poll,
+                        ver: req.ver,
+                        timer: t,
+                        len: b.len(),
+                    };
                     self.req = Some(req);
                     self.last_request = b;
                     self.next_timer = t;
@@ -645,7 +668,10 @@ mod genuine {
     use super::rig;
     use crate::keyset::{DecodedServerCookie, KeySetProvider};
     use crate::nts::AeadAlgorithm;
-    use crate::server::{FilterAction, FilterList, Server, ServerAction, ServerConfig, ServerReason, ServerResponse, ServerStatHandler};
+    use crate::server::{
+        FilterAction, FilterList, Server, ServerAction, ServerConfig, ServerReason, ServerResponse,
+        ServerStatHandler,
+    };
     use crate::time_types::{NtpDuration, NtpTimestamp};
     use crate::{NtpClock, NtpLeapIndicator, NtpVersion};
 
@@ -699,8 +725,14 @@ mod genuine {
     fn config(deny_all: bool) -> ServerConfig {
         let everyone = vec!["0.0.0.0/0".parse().unwrap(), "::/0".parse().unwrap()];
         ServerConfig {
-            denylist: FilterList { filter: if deny_all { everyone.clone() } else { vec![] }, action: FilterAction::Deny },
-            allowlist: FilterList { filter: everyone, action: FilterAction::Ignore },
+            denylist: FilterList {
+                filter: if deny_all { everyone.clone() } else { vec![] },
+                action: FilterAction::Deny,
+            },
+            allowlist: FilterList {
+                filter: everyone,
+                action: FilterAction::Ignore,
+            },
             rate_limiting_cache_size: 0,
             rate_limiting_cutoff: Duration::from_secs(0),
             require_nts: None,
@@ -734,7 +766,13 @@ mod genuine {
             };
             let mut buf = [0u8; 1024];
             let ip: IpAddr = "192.0.2.99".parse().unwrap();
-            match server.handle(ip, rig::ts(rig::BASE_NS + 1_000_000), request, &mut buf, &mut NoStats) {
+            match server.handle(
+                ip,
+                rig::ts(rig::BASE_NS + 1_000_000),
+                request,
+                &mut buf,
+                &mut NoStats,
+            ) {
                 ServerAction::Ignore => None,
                 ServerAction::Respond { message } => Some(message.to_vec()),
             }
@@ -743,8 +781,8 @@ mod genuine {
 }
 
 use rig::{Cfg, Kiss, Rig, Stub, StubShared, TimerOut, Ver, View};
-use std::sync::atomic::Ordering;
 use std::sync::Arc;
+use std::sync::atomic::Ordering;
 
 // ---------------------------------------------------------------------- events
 
@@ -779,7 +817,22 @@ enum Ev {
 }
 
 const ALL_EV: [Ev; 16] = [
-    Ev::T, Ev::N, Ev::NU, Ev::QP, Ev::QM, Ev::QX, Ev::QL, Ev::Rate, Ev::Deny, Ev::Rstr, Ev::Ntsn, Ev::NakD, Ev::NakR, Ev::Unk, Ev::DL, Ev::DH,
+    Ev::T,
+    Ev::N,
+    Ev::NU,
+    Ev::QP,
+    Ev::QM,
+    Ev::QX,
+    Ev::QL,
+    Ev::Rate,
+    Ev::Deny,
+    Ev::Rstr,
+    Ev::Ntsn,
+    Ev::NakD,
+    Ev::NakR,
+    Ev::Unk,
+    Ev::DL,
+    Ev::DH,
 ];
 const GENUINE_EV: [Ev; 4] = [Ev::T, Ev::GN, Ev::GD, Ev::GK];
 
@@ -808,7 +861,11 @@ impl Ev {
         }
     }
     fn parse(s: &str) -> Option<Ev> {
-        ALL_EV.iter().chain(GENUINE_EV.iter()).copied().find(|e| e.code() == s)
+        ALL_EV
+            .iter()
+            .chain(GENUINE_EV.iter())
+            .copied()
+            .find(|e| e.code() == s)
     }
     fn is_answer(self) -> bool {
         !matches!(self, Ev::T | Ev::DL | Ev::DH)
@@ -816,7 +873,11 @@ impl Ev {
 }
 
 fn fmt_hist(cfg: &Cfg, h: &[Ev]) -> String {
-    format!("{};{}", cfg.tag(), h.iter().map(|e| e.code()).collect::<Vec<_>>().join(","))
+    format!(
+        "{};{}",
+        cfg.tag(),
+        h.iter().map(|e| e.code()).collect::<Vec<_>>().join(",")
+    )
 }
 
 fn parse_trace(t: &str) -> Option<(Cfg, Vec<Ev>)> {
@@ -825,7 +886,9 @@ fn parse_trace(t: &str) -> Option<(Cfg, Vec<Ev>)> {
     let evs = if h.trim().is_empty() {
         vec![]
     } else {
-        h.split(',').map(|x| Ev::parse(x.trim())).collect::<Option<Vec<_>>>()?
+        h.split(',')
+            .map(|x| Ev::parse(x.trim()))
+            .collect::<Option<Vec<_>>>()?
     };
     Some((cfg, evs))
 }
@@ -870,7 +933,11 @@ impl Model {
         }
     }
     fn unreachable(&self) -> bool {
-        if self.ever_usable { self.since_usable >= 8 } else { self.polls >= 3 }
+        if self.ever_usable {
+            self.since_usable >= 8
+        } else {
+            self.polls >= 3
+        }
     }
 }
 
@@ -894,11 +961,20 @@ fn desire_values(cfg: &Cfg) -> (i8, i8) {
 
 /// Replay `hist` on a fresh source. Oracle checks run on the LAST event only when `ctx` is
 /// given (earlier transitions were checked when their own prefix was expanded).
-async fn replay_hist(cfg: &Cfg, hist: &[Ev], ctx: Option<&Ctx>, classes: Option<&Mutex<BTreeMap<String, u64>>>) -> End {
+async fn replay_hist(
+    cfg: &Cfg,
+    hist: &[Ev],
+    ctx: Option<&Ctx>,
+    classes: Option<&Mutex<BTreeMap<String, u64>>>,
+) -> End {
     let shared = Arc::new(StubShared::default());
     let (lo, hi) = desire_values(cfg);
     shared.desire.store(lo as i32, Ordering::Relaxed);
-    let mut servers = if hist.iter().any(|e| matches!(e, Ev::GN | Ev::GD | Ev::GK)) { Some(genuine::Servers::new()) } else { None };
+    let mut servers = if hist.iter().any(|e| matches!(e, Ev::GN | Ev::GD | Ev::GK)) {
+        Some(genuine::Servers::new())
+    } else {
+        None
+    };
     let mut rig = match &servers {
         Some(s) => Rig::with_cookies(*cfg, Stub(shared.clone()), s.cookies.clone()),
         None => Rig::new(*cfg, Stub(shared.clone())),
@@ -938,7 +1014,9 @@ async fn replay_hist(cfg: &Cfg, hist: &[Ev], ctx: Option<&Ctx>, classes: Option<
                 if last {
                     // the jittered timer value is random by design: keep it out of the observation
                     obs = match &out {
-                        TimerOut::Sent { poll, ver, len, .. } => format!("Sent poll {poll} v{ver} {len} bytes"),
+                        TimerOut::Sent { poll, ver, len, .. } => {
+                            format!("Sent poll {poll} v{ver} {len} bytes")
+                        }
                         other => format!("{other:?}"),
                     };
                 }
@@ -1026,7 +1104,11 @@ async fn replay_hist(cfg: &Cfg, hist: &[Ev], ctx: Option<&Ctx>, classes: Option<
                     TimerOut::Odd(s) => {
                         model.terminal = 1;
                         if let Some(c) = check {
-                            c.violation("C09:odd-timer-actions", format!("handle_timer returned {s}"), trace());
+                            c.violation(
+                                "C09:odd-timer-actions",
+                                format!("handle_timer returned {s}"),
+                                trace(),
+                            );
                         }
                     }
                 }
@@ -1053,7 +1135,9 @@ async fn replay_hist(cfg: &Cfg, hist: &[Ev], ctx: Option<&Ctx>, classes: Option<
                             applied = false;
                             break;
                         }
-                        let bytes = servers.as_mut().and_then(|s| s.answer(which, &rig.last_request));
+                        let bytes = servers
+                            .as_mut()
+                            .and_then(|s| s.answer(which, &rig.last_request));
                         let Some(bytes) = bytes else {
                             bump("genuine-server-silent");
                             applied = false;
@@ -1104,7 +1188,11 @@ async fn replay_hist(cfg: &Cfg, hist: &[Ev], ctx: Option<&Ctx>, classes: Option<
                     Ev::NakD | Ev::NakR => {
                         if req.ver == 5 && req.poll < 126 {
                             rig::kiss(&req, Kiss::Ntsn).map(|mut w| {
-                                w.poll = if a == Ev::NakD { 127 } else { (req.poll as u8).wrapping_add(1) };
+                                w.poll = if a == Ev::NakD {
+                                    127
+                                } else {
+                                    (req.poll as u8).wrapping_add(1)
+                                };
                                 w
                             })
                         } else {
@@ -1152,7 +1240,11 @@ async fn replay_hist(cfg: &Cfg, hist: &[Ev], ctx: Option<&Ctx>, classes: Option<
                         }
                         if acts.demobilize > 0 {
                             if let Some(c) = check {
-                                c.violation("C09:demobilize-on-normal-answer", "a normal answer demobilised the source", trace());
+                                c.violation(
+                                    "C09:demobilize-on-normal-answer",
+                                    "a normal answer demobilised the source",
+                                    trace(),
+                                );
                             }
                             model.terminal = 2;
                         }
@@ -1161,14 +1253,19 @@ async fn replay_hist(cfg: &Cfg, hist: &[Ev], ctx: Option<&Ctx>, classes: Option<
                         bump("rate");
                         if !acts.is_empty() {
                             if let Some(c) = check {
-                                c.violation("C09:rate-produces-action", format!("valid RATE answer produced actions {acts:?}"), trace());
+                                c.violation(
+                                    "C09:rate-produces-action",
+                                    format!("valid RATE answer produced actions {acts:?}"),
+                                    trace(),
+                                );
                             }
                             if acts.demobilize > 0 || acts.reset > 0 {
                                 model.terminal = 2;
                             }
                         }
                         let p = model.last_poll;
-                        model.rate_steps = (model.rate_steps + 1).min(cfg.max).max(model.rate_steps);
+                        model.rate_steps =
+                            (model.rate_steps + 1).min(cfg.max).max(model.rate_steps);
                         let mut f = model.floor.unwrap_or(i8::MIN).max(p).max(model.rate_steps);
                         if p > model.last_desire {
                             // the interval just used was not the source's own: it must grow
@@ -1223,7 +1320,8 @@ async fn replay_hist(cfg: &Cfg, hist: &[Ev], ctx: Option<&Ctx>, classes: Option<
                         // version negotiation bookkeeping is C12's, not part of this statement
                         a0.proto = (0, 0);
                         a1.proto = (0, 0);
-                        let changed = a0 != a1 || fp0 != fp1 || m1 != m0 || u1 != u0 || !acts.is_empty();
+                        let changed =
+                            a0 != a1 || fp0 != fp1 || m1 != m0 || u1 != u0 || !acts.is_empty();
                         if changed {
                             if let Some(c) = check {
                                 c.violation(
@@ -1256,11 +1354,18 @@ async fn replay_hist(cfg: &Cfg, hist: &[Ev], ctx: Option<&Ctx>, classes: Option<
     };
     if model.terminal == 0 && model.pending != view.pending && applied {
         if let Some(m) = classes {
-            *m.lock().unwrap().entry("pending-view-differs".to_string()).or_insert(0) += 1;
+            *m.lock()
+                .unwrap()
+                .entry("pending-view-differs".to_string())
+                .or_insert(0) += 1;
         }
     }
     End {
-        key: Key { view, desire: shared.desire.load(Ordering::Relaxed) as i8, model },
+        key: Key {
+            view,
+            desire: shared.desire.load(Ordering::Relaxed) as i8,
+            model,
+        },
         applied,
         obs,
     }
@@ -1278,8 +1383,18 @@ struct BfsOut {
 /// Level-parallel BFS over ALL configurations at once (one barrier per depth instead of one
 /// per configuration and depth). Every (state, event) pair of a level is executed against the
 /// real source; threads only partition the level.
-fn explore_all(ctx: &Ctx, cfgs: &[(Cfg, Vec<Ev>)], classes: &Mutex<BTreeMap<String, u64>>) -> Vec<BfsOut> {
-    let mut outs = vec![BfsOut { states: 1, ..BfsOut::default() }; cfgs.len()];
+fn explore_all(
+    ctx: &Ctx,
+    cfgs: &[(Cfg, Vec<Ev>)],
+    classes: &Mutex<BTreeMap<String, u64>>,
+) -> Vec<BfsOut> {
+    let mut outs = vec![
+        BfsOut {
+            states: 1,
+            ..BfsOut::default()
+        };
+        cfgs.len()
+    ];
     let mut seen: HashSet<(usize, Key)> = HashSet::new();
     let mut frontier: Vec<(usize, Vec<Ev>)> = Vec::new();
     for (ci, (cfg, _)) in cfgs.iter().enumerate() {
@@ -1354,7 +1469,10 @@ fn explore_all(ctx: &Ctx, cfgs: &[(Cfg, Vec<Ev>)], classes: &Mutex<BTreeMap<Stri
     for (ci, o) in outs.iter_mut().enumerate() {
         o.fixpoint = !frontier.iter().any(|f| f.0 == ci);
     }
-    ctx.distinct_many(seen.iter().map(|(ci, k)| common::hash_of(&(&cfgs[*ci].0, k))));
+    ctx.distinct_many(
+        seen.iter()
+            .map(|(ci, k)| common::hash_of(&(&cfgs[*ci].0, k))),
+    );
     outs
 }
 
@@ -1376,14 +1494,28 @@ fn replay(ctx: &Ctx, trace: &str) -> String {
 /// `Server`s (allow-all, deny-all, foreign key set) fed with the request the source emitted.
 /// Same oracle as the byte-level answers (GN = N, GD = DENY, GK = NTSN).
 fn run_genuine(ctx: &Ctx, classes: &Mutex<BTreeMap<String, u64>>) {
-    let c = |nts, ver| Cfg { nts, ver, min: 4, init: 4, max: 6 };
-    let cfgs = [c(true, Ver::V4), c(true, Ver::V5), c(false, Ver::V4), c(false, Ver::V5)];
+    let c = |nts, ver| Cfg {
+        nts,
+        ver,
+        min: 4,
+        init: 4,
+        max: 6,
+    };
+    let cfgs = [
+        c(true, Ver::V4),
+        c(true, Ver::V5),
+        c(false, Ver::V4),
+        c(false, Ver::V5),
+    ];
     let max_len = if ctx.quick() { 6 } else { 8 };
     let applied = std::sync::atomic::AtomicU64::new(0);
     for cfg in &cfgs {
         for len in 1..=max_len {
             common::par_for(common::pow(GENUINE_EV.len(), len), 32, |x| {
-                let evs: Vec<Ev> = common::word_of(x, GENUINE_EV.len(), len).iter().map(|i| GENUINE_EV[*i]).collect();
+                let evs: Vec<Ev> = common::word_of(x, GENUINE_EV.len(), len)
+                    .iter()
+                    .map(|i| GENUINE_EV[*i])
+                    .collect();
                 if evs[0] != Ev::T {
                     return; // nothing to answer before the first request
                 }
@@ -1407,7 +1539,13 @@ fn run_genuine(ctx: &Ctx, classes: &Mutex<BTreeMap<String, u64>>) {
 }
 
 fn configs(quick: bool) -> Vec<Cfg> {
-    let c = |nts, ver, min, max| Cfg { nts, ver, min, init: min, max };
+    let c = |nts, ver, min, max| Cfg {
+        nts,
+        ver,
+        min,
+        init: min,
+        max,
+    };
     let mut v = vec![
         c(false, Ver::V4, 4, 6),
         c(false, Ver::V5, 4, 6),
@@ -1478,7 +1616,10 @@ fn check() {
         if !r.fixpoint {
             all_fix = false;
         }
-        let line = format!("{} states, {} transitions, depth {}, fixpoint {}", r.states, r.transitions, r.depth, r.fixpoint);
+        let line = format!(
+            "{} states, {} transitions, depth {}, fixpoint {}",
+            r.states, r.transitions, r.depth, r.fixpoint
+        );
         ctx.note(&format!("bfs_{}", cfg.tag()), &line);
         ctx.sample(format!("{}: {line}", cfg.tag()));
     }
